@@ -329,6 +329,7 @@ impl Router {
                 || Tracker::new(client_id.clone()),
                 |session_state| {
                     connection.subscriptions = session_state.subscriptions;
+                    connection.subscription_ids = session_state.subscription_ids;
                     // for using in acklog
                     pending_acks.clone_from(&session_state.unacked_pubrels);
                     outgoing.unacked_pubrels = session_state.unacked_pubrels;
@@ -546,6 +547,7 @@ impl Router {
             self.graveyard.save_state(
                 tracker,
                 connection.subscriptions,
+                connection.subscription_ids,
                 connection.events,
                 outgoing.unacked_pubrels,
             );
